@@ -444,6 +444,8 @@ impl<'a> PointCloudWriter<'a> {
             /*[C01,C02]*/ r is Ok ==> exists|chunks: Seq<Seq<u8>>| #[trigger] final(self).emitted(old(self), old(self).packed_now(), last_flush, chunks),
             /*[C16]*/ r is Ok ==> final(self).writer.no_new_fault(&*old(self).writer),
             /*[C15]*/ PointCloudWriter::c15_pc(old(self), final(self), r is Ok),
+            // C01: the last flush leaves no bit behind in any byte stream
+            /*[C01]*/ (r is Ok && last_flush) ==> forall|i: int| 0 <= i < final(self).byte_streams@.len() ==> (#[trigger] final(self).byte_streams@[i]).bits().len() == 0,
 //@body_start
         proof { if old(self).writer.quiet() { lemma_quiet_clean(*old(self).writer); } }
 //@loop 0 head hdr=for _k in it: 0\.\.packet_points
@@ -587,6 +589,8 @@ impl<'a> PointCloudWriter<'a> {
         requires old(self).wf_w(),
         ensures
             r is Ok ==> final(self).writer.wf() && final(self).buffer@.len() == 0,
+            // C01: nothing stays behind in the byte streams: every bit of every added point has been written into a packet
+            /*[C01]*/ r is Ok ==> forall|i: int| 0 <= i < final(self).byte_streams@.len() ==> (#[trigger] final(self).byte_streams@[i]).bits().len() == 0,
             // C02: the section header at the section start carries the final section length = logical bytes of the whole section,
             // nothing else in the stream changes by the patch, and the cursor is back at the end of the section
             /*[C02,C01]*/ r is Ok ==> ({
@@ -712,7 +716,8 @@ proof fn lemma_wbtd_finish(o: PointCloudWriter, m: PointCloudWriter, f: PointClo
             && body == Seq::<u8>::empty() && f.section_header.section_length == o.section_header.section_length,
         f.writer.wf(), f.writer.cursor() % 4 == 0, 0 <= f.writer.cursor() - wmid.cursor() < 4,
         appended(wmid, *f.writer, Seq::new((f.writer.cursor() - wmid.cursor()) as nat, |i: int| 0u8)),
-    ensures f.wf_w(), f.emitted(&o, k, last, chunks)
+    ensures f.wf_w(), f.emitted(&o, k, last, chunks),
+        last ==> forall|i: int| 0 <= i < f.byte_streams@.len() ==> (#[trigger] f.byte_streams@[i]).bits().len() == 0
 {
     let n = o.n();
     let tot = total_len(chunks, n);
@@ -748,6 +753,12 @@ proof fn lemma_wbtd_finish(o: PointCloudWriter, m: PointCloudWriter, f: PointClo
             else { bits_of(#[trigger] chunks[i]) + f.byte_streams@[i].bits() =~= all && f.byte_streams@[i].nbits() < 8 } }) by {
             assert(m.byte_streams@[i].bits() =~= o.all_bits(i, k));
             if sum == 0 { assert(f.byte_streams@[i] == m.byte_streams@[i]); assert(m.byte_streams@[i].chunk_len(last) == 0); assert(chunks[i] =~= Seq::<u8>::empty()); }
+        }
+    }
+    if last {
+        reveal(PointCloudWriter::emitted_core);
+        assert forall|i: int| 0 <= i < f.byte_streams@.len() implies (#[trigger] f.byte_streams@[i]).bits().len() == 0 by {
+            assert(chunks[i].len() >= 0);
         }
     }
     assert(f.pts_fit(f.buffer@)) by {
